@@ -682,6 +682,14 @@ impl Judge<'_> {
             }
             for a in alarms {
                 self.rep.count(&format!("alarms_raw/{}", a.rule));
+                if a.rule == "honest-rejected" {
+                    // C07's statement bounds what may be called Secure / Insecure; it does not promise
+                    // that every RFC-conformant honest response is accepted (acceptance of the proofs
+                    // hickory's own server attaches is the completeness clause of C08/C09). A validator
+                    // that rejects an honest response is stricter, never unsound: counted, not judged.
+                    self.rep.count(&format!("info_honest_rejected_not_judged/{}", a.detail));
+                    continue;
+                }
                 // shrink to the smallest history / fault set that still shows the same alarm
                 let needs_min = si > 0 || st.faults.len() > 1 || st.faults.iter().any(|f| f.prims.len() > 1);
                 let min_steps = if needs_min { self.minimize(b, &steps[..=si], a.rule, &a.detail) } else { steps[..=si].to_vec() };
